@@ -178,13 +178,10 @@ func runSpec(p *eng.Solo, sp spec) {
 	}
 	jobs := sp.jobs(p.Thorough(), dir, noPoll)
 	// reserve time for the race pass at the end
-	reserve := 25 * time.Second
-	if p.Thorough() {
-		reserve = 90 * time.Second
-	}
 	total := time.Until(p.Deadline)
-	if reserve > total/3 {
-		reserve = total / 3
+	reserve := total / 4
+	if reserve > 150*time.Second {
+		reserve = 150 * time.Second
 	}
 	exploreDeadline := p.Deadline.Add(-reserve)
 	results := make([]*result, len(jobs))
